@@ -63,8 +63,8 @@ static void fill(uint8_t *p, size_t n, int kind, uint64_t seed) {
 }
 
 // definition for small inputs; for big ones a byte table derived from the same definition
-static uint32_t R32(const uint8_t *p, size_t n, uint32_t init) { return n <= 65536 ? ref::crc32(p, n, init) : ref::crc32_fast(p, n, init); }
-static uint64_t R64(const uint8_t *p, size_t n, uint64_t init) { return n <= 65536 ? ref::crc64(p, n, init) : ref::crc64_fast(p, n, init); }
+static uint32_t R32(const uint8_t *p, size_t n, uint32_t init) { return n <= 8192 ? ref::crc32(p, n, init) : ref::crc32_fast(p, n, init); }
+static uint64_t R64(const uint8_t *p, size_t n, uint64_t init) { return n <= 8192 ? ref::crc64(p, n, init) : ref::crc64_fast(p, n, init); }
 
 // ---- (a) exhaustive grid ----------------------------------------------------------------
 static const unsigned GRID_LEN = 640, GRID_ALIGN = 64;
@@ -76,9 +76,9 @@ static void run_grid() {
 		const uint32_t i32 = (uint32_t)mix64(len * 2 + 1); const uint64_t i64 = mix64(len * 2 + 2);
 		const uint32_t r32a = ref::crc32(content.data(), len, 0), r32b = ref::crc32(content.data(), len, i32);
 		const uint64_t r64a = ref::crc64(content.data(), len, 0), r64b = ref::crc64(content.data(), len, i64);
-		char d[160]; snprintf(d, sizeof d, "{\"mode\":\"grid\",\"variant\":\"" VNAME "\",\"len\":%u,\"align\":\"0..63\"}", len);
-		g_stats.current = d;
 		for (unsigned a = 0; a < GRID_ALIGN; ++a) {
+			char d[160]; snprintf(d, sizeof d, "{\"mode\":\"grid\",\"variant\":\"" VNAME "\",\"len\":%u,\"align\":%u}", len, a);
+			g_stats.current = d;
 			ABuf b(a, len);
 			if (len) memcpy(b.p, content.data(), len);
 			uint32_t g32a = lzma_crc32(b.p, len, 0), g32b = lzma_crc32(b.p, len, i32);
@@ -101,7 +101,7 @@ static void run_grid() {
 // ---- (b) direct calls ---------------------------------------------------------------------
 static void mode_direct(Case &c) {
 	int kind = (int)c.u(K_N);
-	uint32_t len = c.chance(20) ? c.len_exp(1u << 20) : (c.chance(96) ? c.len_exp(1u << 14) : c.len_exp(700));
+	uint32_t len = c.chance(8) ? c.len_exp(1u << 20) : (c.chance(96) ? c.len_exp(1u << 14) : c.len_exp(700));
 	unsigned a = c.u(64);
 	uint64_t seed = c.u32();
 	uint64_t init = c.flag() ? 0 : c.u64();
@@ -160,7 +160,9 @@ static void mode_check(Case &c) {
 	lzma_check chk = c.pick<lzma_check>({LZMA_CHECK_CRC32, LZMA_CHECK_CRC64, LZMA_CHECK_SHA256});
 	int path = (int)c.u(P_N);
 	int kind = (int)c.u(K_N);
-	uint32_t len = c.chance(10) ? c.len_exp(1u << 20) : (c.chance(64) ? c.len_exp(1u << 15) : c.len_exp(600));
+	uint32_t len = c.chance(64) ? c.len_exp(1u << 15) : c.len_exp(600);
+	// MiB-sized inputs only through the uncompressed-chunk path (the check code sees the same calls; LZMA2 on 1 MiB of noise under ASan costs ~0.2 s)
+	if (c.chance(6)) { len = c.len_exp(1u << 20); path = P_BLOCK_UNCOMP; }
 	unsigned a = c.u(64);
 	uint64_t seed = c.u32();
 	drv::Schedule esch = drv::draw_schedule(c), dsch = drv::draw_schedule(c);
